@@ -31,7 +31,7 @@ pub fn def() -> CheckDef {
             real: super::REAL_COMPONENTS,
             stub: super::STUB_COMPONENTS,
         },
-        runs: |t| if t.thorough() { 200 } else { 12 },
+        runs: |t| if t.thorough() { 600 } else { 24 },
         run,
         execute,
         expected_probes: &[
